@@ -1,0 +1,15 @@
+//go:build verif
+
+package cbor
+
+// Contracts for govc (see /verif/DESIGN.md §5 C03, C10). Comment-only; compiled
+// only under the build tag "verif".
+//
+// The plain CBOR codec is the DAG-CBOR decoder/encoder with links switched off (a tag 42 is then an
+// error, not a link) and otherwise the default — i.e. strict — options: everything proved about
+// dagcbor.DecodeOptions.Decode (strictness, depth and allocation bounds, end of stream) applies.
+//@ func Decode(na, r) (err)
+//@   requires na != nil && r != nil && r.teesink == nil
+//@   before Decode assert[C03,C10] !carg0.AllowLinks && !carg0.RelaxedDecode && !carg0.DontParseBeyondEnd && carg0.AllocationBudget == 0 && carg0.MaxDepth == 0 && carg1 == na && carg2 == r
+// (The plain CBOR encoder — links refused, default key order — is not part of the C02 check, whose
+// token-path proof is stated for the DAG-CBOR options.)
